@@ -325,3 +325,29 @@ pub const FILE_NAME_PREFIXES: [&str; 8] = ["", "my file ", "4\"x", "q\"-\"5 ", "
 pub fn hostile_file_name(k: usize, base: &str) -> String {
     format!("{}{}", FILE_NAME_PREFIXES[k % FILE_NAME_PREFIXES.len()], base)
 }
+
+
+/// Run a tool with an INPUT and / or OUTPUT file whose NAMES are not valid UTF-8 (legal on this
+/// platform). `input` is written to the input file first. Returns the run and what the output
+/// file holds afterwards (None = no such file).
+pub fn run_with_non_utf8_paths(ctx: &crate::report::Ctx, bin: &str, before: &[&str], input: Option<&[u8]>, between: &[&str], with_output: bool, tag: &str) -> (crate::cli::RunOut, Option<String>) {
+    use std::ffi::{OsStr, OsString};
+    use std::os::unix::ffi::OsStrExt;
+    let dir = ctx.fresh_dir(&format!("nonutf8-{}", tag));
+    let _ = std::fs::create_dir_all(&dir);
+    let inp = dir.join(OsStr::from_bytes(b"entr\xE9e \xFF.txt"));
+    let outp = dir.join(OsStr::from_bytes(b"r\xE9sultat \xFE.out"));
+    let mut args: Vec<OsString> = before.iter().map(|s| OsString::from(*s)).collect();
+    if let Some(content) = input {
+        let _ = std::fs::write(&inp, content);
+        args.push(inp.clone().into_os_string());
+    }
+    args.extend(between.iter().map(|s| OsString::from(*s)));
+    if with_output {
+        args.push(outp.clone().into_os_string());
+    }
+    let out = crate::cli::run(&ctx.bin(bin), &args, None, Some(&dir), Some((2_000_000_000, 100_000)), std::time::Duration::from_secs(120));
+    let written = std::fs::read(&outp).ok().map(|b| String::from_utf8_lossy(&b).to_string());
+    let _ = std::fs::remove_dir_all(&dir);
+    (out, written)
+}
